@@ -555,8 +555,7 @@ public:
             return;
         }
         running_.store(false, std::memory_order_release);
-        const auto socket = listen_socket_;
-        listen_socket_ = kInvalidSocket;
+        const NativeSocket socket = listen_socket_.exchange(kInvalidSocket);
 #ifdef _WIN32
         if (socket != kInvalidSocket) {
             ::shutdown(socket, SD_BOTH);
@@ -582,7 +581,8 @@ private:
     StopCallback stop_callback_;
     Metrics metrics_{};
     std::atomic<bool> running_{false};
-    NativeSocket listen_socket_{kInvalidSocket};
+    // stop() invalidates it while the accept thread is still reading it
+    std::atomic<NativeSocket> listen_socket_{kInvalidSocket};
     std::thread accept_thread_;
     std::atomic<bool> transport_stopped_{false};
     std::mutex rate_mutex_;
